@@ -600,3 +600,17 @@ func (a *Activation) safetyOn(kind string) bool {
 	}
 	return false
 }
+
+// sentinel returns the constant standing for a package-level error variable.
+func (a *Activation) sentinel(pkgPath, name string) Term {
+	g := a.g
+	if sp := g.eng.ssaPkg[pkgPath]; sp != nil {
+		if gl := sp.Var(name); gl != nil {
+			g.globalLoc(gl)
+			return T(SIface, "errc_"+mangle(pkgPath+"."+name))
+		}
+	}
+	s := "errc_" + mangle(pkgPath+"."+name)
+	g.declareConst(s, SIface)
+	return T(SIface, s)
+}
